@@ -33,6 +33,8 @@ def _init():
     from breezy.plugins.fastimport import load_fastimport
     load_fastimport()
     trace.be_quiet(True)
+    import logging
+    logging.getLogger("brz").setLevel(logging.CRITICAL)
 
 
 def entry_key(e):
@@ -109,7 +111,7 @@ def build_src(path, case):
                 entry_rev.append(cur)
                 pids = [rid(p) for p in rev["parents"]]
                 sha = repo.add_inventory(revid, inv, pids)
-                props = {"branch-nick": "src"}
+                props = {"branch-nick": "src"} if case.get("props", 1) else {}
                 if rev.get("authors"):
                     props["authors"] = "\n".join(S[a] for a in rev["authors"])
                 r = _mod_revision.Revision(
